@@ -26,7 +26,8 @@ def sym_core(rng, positions, tag):
     from dassh.core import Core
     case = gi.random_case(rng, positions=positions, n_types=2, gap_model='flow', length=0.1,
                           type_kw=dict(n_ring=2, n_duct=1))
-    d = "/verif/.work/c02trace_%s" % tag
+    import os
+    d = "/verif/.work/c02trace_%s_%d" % (tag, os.getpid())      # C01, C02, C04 and C07 may trace concurrently
     inp, r = gi.build_reactor(case, d)
     core = r.core
     tr = Trace()
